@@ -11,8 +11,9 @@
  *          a range of one value becomes a plain value and a plain value a range of one value
  *      X   a third, plain list of 0..NE+1 values (length symbolic, values symbolic; type pattern = E's types,
  *          rotated by LS_XROT, one extra value at the end)
- *   h_list_cmp    eq == 1 / cmp == 0 between C, E and C2 in both directions; against X the sign is identical for
- *                 E, C, C2 and equal to spec_sign_list (lexicographic over the EXPANSION), antisymmetric, eq <=> 0
+ *   h_list_eq     eq == 1 / cmp == 0 between C, E and C2 in both directions
+ *   h_list_cmp    against X the sign is identical for E, C, C2 and equal to spec_sign_list (lexicographic over the
+ *                 EXPANSION), antisymmetric, eq <=> sign 0     (two entries: one run of both took 5x as long)
  *   h_list_itr    rtosc_arg_val_itr_get/_next over C yields exactly E and consumes exactly C's slots
  *   h_list_avmsg  rtosc_avmessage(C) and rtosc_avmessage(E) are byte-identical (and not the error value 0)      */
 #include "c16_common.h"
@@ -127,15 +128,13 @@ static void build_x(void)
     }
 }
 
-#ifdef H_LIST_CMP
-void h_list_cmp(void)
+#ifdef H_LIST_EQ
+void h_list_eq(void)
 {
     in_init();
     build();
-    build_x();
-    int nx = IN.nx;
-    V_ASSUME(nx <= NE + 1);
     EXACT(E, gE, NE); EXACT(C, gC, NC); EXACT(C2, gC2, NC2);
+    V_COVER(NE > 0);
 
     /* compressed, expanded and re-compressed forms are equal */
     V_ASSERT(rtosc_arg_vals_eq(C, E, NC, NE, NULL) == 1,   "C16 compressed list eq its expansion");
@@ -146,6 +145,18 @@ void h_list_cmp(void)
     V_ASSERT(rtosc_arg_vals_eq(C2, C, NC2, NC, NULL) == 1, "C16 re-compression eq compressed list");
     V_ASSERT(rtosc_arg_vals_cmp(C, C2, NC, NC2, NULL) == 0, "C16 cmp(compressed, re-compression) == 0");
     V_ASSERT(rtosc_arg_vals_cmp(C2, C, NC2, NC, NULL) == 0, "C16 cmp(re-compression, compressed) == 0");
+}
+#endif
+
+#ifdef H_LIST_CMP
+void h_list_cmp(void)
+{
+    in_init();
+    build();
+    build_x();
+    int nx = IN.nx;
+    V_ASSUME(nx <= NE + 1);
+    EXACT(E, gE, NE); EXACT(C, gC, NC); EXACT(C2, gC2, NC2);
 
     /* against a third list: same sign whichever form is used, and it is the order of the expansions */
     int s = spec_sign_list(SE, NE, SX, nx);
